@@ -266,7 +266,9 @@ def run_case(lines, out, seed: int, variants, roundtrip: bool):
                 # Binding B: the recorded steps are the ones the specification prescribes
                 glog, problems = project_events(events, to_abs)
                 elog = expected_log(out)
-                if glog != elog:
+                if not events and elog:
+                    d = [("hooks-silent",)]          # no event at all: the instrumentation is not firing (machinery, not a verdict)
+                elif glog != elog:
                     n = next((i for i, (a, b) in enumerate(zip(glog, elog)) if a != b), min(len(glog), len(elog)))
                     d = [("recorded steps diverge from the specification at step %d" % (n + 1), [list(map(str, x)) for x in glog[n:n + 2]],
                           [list(map(str, x)) for x in elog[n:n + 2]])]
@@ -325,6 +327,7 @@ def run_config(ctx, cfg: str, nvariants: int, roundtrip: bool, sample_mod: int =
     tlc.cleanup(res)
     results = core.pmap(worker, [(b, ctx.seed, nvariants, roundtrip, sample_mod) for b in blocks], chunksize=200)
     sampled = False
+    silent = 0
     for r in results:
         if r is None:
             continue
@@ -338,6 +341,9 @@ def run_config(ctx, cfg: str, nvariants: int, roundtrip: bool, sample_mod: int =
         ctx.traces += 1
         if r["nt"]:
             ctx.nontriv(cfg[:8] + r["key"])
+        if "bad" in r and r["bad"]["diff"] and r["bad"]["diff"][0][0] == "hooks-silent":
+            silent += 1
+            continue
         if "bad" in r:
             b = r["bad"]
             if focus is not None:
@@ -347,4 +353,7 @@ def run_config(ctx, cfg: str, nvariants: int, roundtrip: bool, sample_mod: int =
             ctx.violation(b)
         elif not sampled and r["nt"] and r["ok"]:
             sampled = True
+    if silent:
+        raise tlc.MachineryError("the statement hooks did not fire in %d executions whose observable results were as specified: "
+                                 "is OPENCYPHAL_PYDSDL_VERIF instrumentation present in %s?" % (silent, core.REPO))
     return results
